@@ -179,7 +179,14 @@ func cmpGuards(fn *ssa.Function, fail failPred) []CmpGuard {
 				if !condTrueFails {
 					op = negateOp(op)
 				}
-				out = append(out, CmpGuard{bo, u.If, op, bo.X, bo.Y})
+				x, y := bo.X, bo.Y
+				// canonical operand order: a constant goes to the right (0 < len(s) is len(s) > 0)
+				if _, xConst := x.(*ssa.Const); xConst {
+					if _, yConst := y.(*ssa.Const); !yConst {
+						x, y, op = y, x, swapOp(op)
+					}
+				}
+				out = append(out, CmpGuard{bo, u.If, op, x, y})
 			}
 		}
 	}
